@@ -142,6 +142,8 @@ def _run(fn, x, o, extra=None):
           'envelope_opts': {'interp_method': o['interp']}, 'extrema_opts': {'pad_width': o['pad']}}
     if o['rule'] == 'fixed':
         kw['imf_opts']['max_iters'] = 6
+    if o.get('parabolic'):
+        kw['extrema_opts']['parabolic_extrema'] = True       # extrema refined by a three-point parabola (locations between the samples)
     # custom edge padding (np.pad options for the padded magnitudes / locations); the option dictionaries of a pair of runs are the SAME
     # objects when the witness says so (`shared`), as in a script that builds its options once
     for nm in ('mag_pad_opts', 'loc_pad_opts'):
@@ -219,8 +221,8 @@ def replay(w):
     if exact and err == 0:
         return False, 'bit-for-bit'
     tol = 1e-7
-    if err > tol:
-        if _near_threshold(fn, x, o, err, extra):
+    if not (err <= tol):         # (NaN-aware)
+        if np.isfinite(err) and _near_threshold(fn, x, o, err, extra):
             return False, 'guard-band: a stop / extremum decision lies within rounding distance of its threshold (result ill-conditioned for this input)'
         return True, '%s does not commute with %s: relative deviation %.3g (options %s%s)' % (fn, 'scaling by %g' % tr[1] if tr[0] == 'scale' else 'time reversal', err, o, ', ' + str(extra) if extra else '')
     if exact and err > 0 and w.get('require_exact', True):
@@ -286,6 +288,37 @@ def refute(tier, seed, emit):
                         ok, msg = replay(w)
                         if ok:
                             emit.violation(('time-reversal' if tr[0] == 'reverse' else 'scaling') + ':' + fn + ':custom-padding', w, msg)
+        if emit.full:
+            return
+    # parabolic refinement of the extrema (fractional locations): a location error that points the same way along the ARRAY for a recording and
+    # for its reverse cancels under scaling and sign flips but not under time reversal
+    emit.scope('%d signals x parabolic_extrema=True x {sd, fixed, rilling} with cubic-spline envelopes x {reverse, factor -1, 4, 3.7} x {get_next_imf, sift}' % min(nsig, 4))
+    for si, x in enumerate(sigs[:4]):
+        for oi, o in enumerate(({'rule': 'sd', 'step': 1, 'interp': 'splrep', 'pad': 2, 'parabolic': True}, {'rule': 'fixed', 'step': 1, 'interp': 'splrep', 'pad': 1, 'parabolic': True},
+                                {'rule': 'rilling', 'step': 1, 'interp': 'splrep', 'pad': 2, 'parabolic': True})):
+            for fn in ('get_next_imf', 'sift'):
+                for tr in (('reverse',), ('scale', -1.0), ('scale', 4.0), ('scale', 3.7)):
+                    emit.case(('parabolic', si, oi, fn, tr), nontrivial=True, contract=fn)
+                    w = {'kind': 'equivariance', 'x': x.tolist(), 'opts': o, 'fn': fn, 'transform': list(tr)}
+                    ok, msg = replay(w)
+                    if ok:
+                        emit.violation(('time-reversal' if tr[0] == 'reverse' else 'scaling') + ':' + fn + ':parabolic-extrema', w, msg)
+        if emit.full:
+            return
+    # slow, smooth oscillations (thousands of samples per cycle, peaks between two samples): every extremum stands only ~1e-6 of the amplitude above
+    # its neighbouring samples - any ABSOLUTE tolerance in the extrema detection shows as a scale dependence within the property's range 2^-8 .. 2^8
+    emit.scope('slow oscillations (2000 and 3300 samples per cycle, off-grid peaks; alone and under a fast tone) x scale factors {2^-8, -2^-8, 2^-7, 2^8, 3.7e-3} and time reversal x {get_next_imf, sift} with default options')
+    tt = np.arange(5000.0)
+    slow = [np.cos(2 * np.pi * (tt - 0.4) / 2000.0), np.cos(2 * np.pi * (tt - 0.3) / 3300.0) + 0.5 * np.cos(2 * np.pi * tt / 37.3)]
+    for si, x in enumerate(slow):
+        o = {'rule': 'sd', 'step': 1, 'interp': 'splrep', 'pad': 2}
+        for fn in ('get_next_imf', 'sift'):
+            for tr in (('scale', 2.0 ** -8), ('scale', -2.0 ** -8), ('scale', 2.0 ** -7), ('scale', 2.0 ** 8), ('scale', 3.7e-3), ('reverse',)):
+                emit.case(('slow', si, fn, tr), nontrivial=True, contract=fn)
+                w = {'kind': 'equivariance', 'x': x.tolist(), 'opts': o, 'fn': fn, 'transform': list(tr)}
+                ok, msg = replay(w)
+                if ok:
+                    emit.violation(('time-reversal' if tr[0] == 'reverse' else 'scaling') + ':' + fn + ':slow-oscillation', w, msg)
         if emit.full:
             return
     # quantised recordings (plateaus of equal samples, flat-topped extrema): time reversal and sign flip must still commute
